@@ -59,3 +59,39 @@ pub proof fn lemma_suffix_facts(t0: Tokens, t: Tokens)
 {
 	if t.tokens@.len() > 0 { assert(t.tokens@[0] == t0.tokens@[taken(t0, t)]); }
 }
+
+// ---- declarations: the keyword (and `pub` / `extern`) were read by parse_declaration, which hands over their location --------------------
+pub open spec fn dloc(d: Declaration) -> Location {
+	match d {
+		Declaration::Constant { location_of_declaration, .. } => location_of_declaration,
+		Declaration::Function { location_of_declaration, .. } => location_of_declaration,
+		Declaration::FunctionHead { location_of_declaration, .. } => location_of_declaration,
+		Declaration::Structure { location_of_declaration, .. } => location_of_declaration,
+		Declaration::Import { location, .. } => location,
+		Declaration::Poison(_) => arbitrary(),
+	}
+}
+// a structure or word: located by its keyword alone, named by the first token, flags as handed over, every member inside the text
+pub open spec fn structure_at(t0: Tokens, d: Declaration, given: Location, name_loc: Location) -> bool {
+	d matches Declaration::Structure { name, members, location_of_declaration, .. }
+		&& location_of_declaration == given && name.location == name_loc
+		&& forall|i: int| 0 <= i < members@.len() ==> member_in(t0, #[trigger] members@[i])
+}
+// a constant: located from its keyword to its NAME (same line and column as the keyword), the type between name and end of file,
+// the value an expression located behind the name
+pub open spec fn constant_at(t0: Tokens, d: Declaration, given: Location) -> bool {
+	d matches Declaration::Constant { name, value, value_type, location_of_declaration, location_of_type, .. }
+		&& name.location == first_loc(t0)
+		&& forward(location_of_declaration) && location_of_declaration.span.start == given.span.start && same_line(location_of_declaration, given)
+		&& location_of_declaration.span.end == first_loc(t0).span.end
+		&& forward(location_of_type) && first_loc(t0).span.start <= location_of_type.span.start && location_of_type.span.end <= end_loc(t0).span.end
+		&& (value_type is Err ==> value_type->Err_0 == Poison::Error(Error::MissingConstantType { location: first_loc(t0) }))
+		&& loc_ok(value) && forward(eloc(value)) && first_loc(t0).span.start <= eloc(value).span.start && eloc(value).span.end <= end_loc(t0).span.end
+}
+pub proof fn lemma_members_of_a_suffix(t0: Tokens, t1: Tokens, members: Seq<Member>)
+	requires stream_wf(t0), stream_wf(t1), took(t0, t1, 0), t1.tokens@.len() > 0, forall|i: int| 0 <= i < members.len() ==> member_in(t1, #[trigger] members[i]),
+	ensures forall|i: int| 0 <= i < members.len() ==> member_in(t0, #[trigger] members[i]),
+{
+	lemma_suffix_facts(t0, t1);
+	assert forall|i: int| 0 <= i < members.len() implies member_in(t0, #[trigger] members[i]) by { assert(member_in(t1, members[i])); }
+}
